@@ -545,13 +545,16 @@ Section Threshold.
     destruct (jstr_of (jget S_keyid sg)) as [skid|]; [|discriminate].
     destruct (jstr_of (jget S_keyid key)) as [mkid|]; [|discriminate].
     destruct (jstr_of (jget S_signature sg)) as [sval|]; [|discriminate].
+    destruct (negb (gpg_sig_schema_ok sg)); [discriminate|].
+    cbv zeta in H.
     match type of H with context [fst ?s] => set (sel := s) in * end.
-    destruct (jget S_creation_time (snd sel)) as [[| |c| | | |]|];
-      try (exists (fst sel), sval; congruence).
-    destruct (jget S_validity_period (snd sel)) as [[| |v| | | |]|];
-      try (exists (fst sel), sval; congruence).
-    destruct (negb (c =? 0)%Z && negb (v =? 0)%Z && (c + v <? now_s)%Z); [discriminate|].
-    exists (fst sel), sval. congruence.
+    match type of H with context [gpg_sig_value sval ?o] => set (oh := o) in * end.
+    assert (G : (if Nat.even (length oh) then Ok (sig_ok (fst sel) msg (gpg_sig_value sval oh)) else Err EValueError) = Ok true ->
+                exists tok v, sig_ok tok msg v = true).
+    { destruct (Nat.even (length oh)); [|discriminate]. intro G. exists (fst sel), (gpg_sig_value sval oh). congruence. }
+    destruct (jget S_creation_time (snd sel)) as [[| |c| | | |]|]; try (apply G; exact H).
+    destruct (jget S_validity_period (snd sel)) as [[| |v| | | |]|]; try (apply G; exact H).
+    destruct (negb (c =? 0)%Z && negb (v =? 0)%Z && (c + v <? now_s)%Z); [discriminate|]. apply G; exact H.
   Qed.
 
   Lemma carries_oracle : forall md vk, carries_valid_sig sig_ok now_s md vk ->
@@ -562,17 +565,17 @@ Section Threshold.
     - apply gpg_verify_oracle in H. destruct H as [tok [v H]]. exists msg, tok, v. split; assumption.
   Qed.
 
-  (** the expired-key skip *)
+  (** the expired-key skip (for a signature dict that passes the schema check) *)
   Lemma gpg_verify_expired : forall sg key msg skid mkid sval c v,
     jstr_of (jget S_keyid sg) = Some skid -> jstr_of (jget S_keyid key) = Some mkid ->
-    jstr_of (jget S_signature sg) = Some sval ->
+    jstr_of (jget S_signature sg) = Some sval -> gpg_sig_schema_ok sg = true ->
     jget S_subkeys key = None ->
     jget S_creation_time key = Some (JInt c) -> jget S_validity_period key = Some (JInt v) ->
     c <> 0%Z -> v <> 0%Z -> (c + v < now_s)%Z ->
     gpg_verify sig_ok now_s sg key msg = Err EKeyExpired.
   Proof.
-    intros sg key msg skid mkid sval c v H1 H2 H3 H4 H5 H6 Hc Hv Hlt. unfold gpg_verify.
-    rewrite H1, H2, H3, H4. cbn [snd fst]. rewrite H5, H6.
+    intros sg key msg skid mkid sval c v H1 H2 H3 Hs H4 H5 H6 Hc Hv Hlt. unfold gpg_verify.
+    rewrite H1, H2, H3, Hs, H4. cbn [negb snd fst]. rewrite H5, H6.
     apply Z.eqb_neq in Hc. apply Z.eqb_neq in Hv. apply Z.ltb_lt in Hlt. rewrite Hc, Hv, Hlt. reflexivity.
   Qed.
 
